@@ -175,3 +175,119 @@ Example c15_source_startup_example :
   py_startup [(0x99, 7)] [5] [(0, [0x33]); (1, [0x11]); (2, [0x11; 0x66; 0x44])] cfg rd o
     = ([(0x22, 0); (0x11, 2)], [1], 3, [(2, 0x11, 1); (1, 0x66, 1)], RRaised).
 Proof. vm_compute. split; reflexivity. Qed.
+
+(* ---- start-up as one operation ----------------------------------------------------------------------------------------
+   model/Multicast.v: [Startup ss rs calls a] is Multicast.startup(coordinator) -- the table scan, then one subscribe per
+   group of the coordinator's endpoints other than 0, in order, duplicates kept; calls = those groups, each with the index
+   set.pop() returns should the call reach the pop; every table write of the call is answered by [a]; a subscribe that
+   raises (command timeout) ends the call.  [xop] = a single-write operation ([Plain o]) or a start-up, [xstep] / [xrun] run
+   them; an [xstep] reports all the table writes of the call, in order.  Vocabulary (proofs/MulticastStartup_proofs.v):
+   readable ss rs        := status_ok ss = true /\ Forall (fun r => status_ok r = true) rs
+   replied a             := a is a response (accepting or refusing), not a timeout
+   write_fails a         := a is a refusing response, or a timeout (write lost or applied)
+   scan_of c             := the (ss, rs) of the table scan operation c starts with: [Plain (Init ..)] and [Startup ..]
+   xanswered c           := every read of c is answered with success and every write is answered (accept / reject)
+   scan_admissible st c  := if c scans, the NCP table of st holds each group at most once and the reads succeed
+   scans_admissible st cs:= that, for every operation of cs at the state it is applied to
+   wgroup w              := the group of a table write (index, group, endpoint)                                          *)
+Require Import BV.proofs.MulticastStartup_proofs.
+
+(* on sequences without a start-up the extended run is the old one *)
+Theorem c15_xrun_plain : forall ops st, xrun st (map Plain ops) = run st ops.
+Proof. exact xrun_plain. Qed.
+
+(* a start-up is the scan followed by subscribe calls of the model, at most one per listed group *)
+Theorem c15_startup_is_run : forall st ss rs calls a,
+  exists ops, Forall is_call ops /\ (replied a -> Forall answered ops) /\ (length ops <= length calls)%nat /\
+    xst_of (xstep st (Startup ss rs calls a)) = run st (Init ss rs :: ops).
+Proof. exact startup_is_plain_run. Qed.
+
+(* every index free or used by exactly one group: one operation, start-up included, whatever the writes are answered *)
+Theorem c15_xpartition : forall st c, scan_admissible st c ->
+  (scan_of c = None -> wf st /\ full_partition st) ->
+  wf (xst_of (xstep st c)) /\ full_partition (xst_of (xstep st c)).
+Proof. exact xstep_partition. Qed.
+
+(* ... and every operation sequence, of any length, with start-ups and scans anywhere (timeouts included) *)
+Theorem c15_xrun_partition : forall cs st, wf st -> full_partition st -> scans_admissible st cs ->
+  wf (xrun st cs) /\ full_partition (xrun st cs).
+Proof. exact xrun_partition. Qed.
+
+Theorem c15_xreachable : forall s0 a0 t c cs, scan_of c <> None ->
+  scans_admissible {| subs := s0; avail := a0; ncp := t |} (c :: cs) ->
+  let st := xrun {| subs := s0; avail := a0; ncp := t |} (c :: cs) in
+  wf st /\ full_partition st.
+Proof. exact xreachable. Qed.
+
+(* a table the host mirrors holds each group at most once, so in accept / reject sequences every later scan is admissible *)
+Theorem c15_mirror_distinct : forall st, wf st -> mirror st -> distinct_groups (ncp st).
+Proof. exact mirror_distinct. Qed.
+
+(* host view = NCP table along every accept / reject sequence with start-ups and scans anywhere *)
+Theorem c15_xmirror : forall st c, wf st /\ full_partition st /\ mirror st -> xanswered c ->
+  let st' := xst_of (xstep st c) in wf st' /\ full_partition st' /\ mirror st'.
+Proof. exact xstep_good. Qed.
+
+Theorem c15_xrun_answered : forall cs st, wf st -> full_partition st -> mirror st -> Forall xanswered cs ->
+  wf (xrun st cs) /\ full_partition (xrun st cs) /\ mirror (xrun st cs).
+Proof. exact xrun_answered. Qed.
+
+(* from any table in which each group appears at most once, the first operation being a start-up or a scan *)
+Theorem c15_xreachable_answered : forall s0 a0 t c cs, distinct_groups t -> scan_of c <> None ->
+  Forall xanswered (c :: cs) ->
+  let st := xrun {| subs := s0; avail := a0; ncp := t |} (c :: cs) in
+  wf st /\ full_partition st /\ mirror st.
+Proof. exact xreachable_answered. Qed.
+
+(* inside a start-up a subscribed group is passed over without a table write *)
+Theorem c15_startup_skips_subscribed : forall st g c calls a i,
+  lookup g (subs st) = Some i -> startup_subs st ((g, c) :: calls) a = startup_subs st calls a.
+Proof. exact startup_skips_subscribed. Qed.
+
+(* a start-up whose writes fail -- refused, or timed out -- leaves the host's view as the scan found it: the number of
+   free indices is unchanged *)
+Theorem c15_startup_fail_keeps_free : forall st ss rs calls a, write_fails a ->
+  let st0 := st_of (step st (Init ss rs)) in
+  let st' := xst_of (xstep st (Startup ss rs calls a)) in
+  subs st' = subs st0 /\ avail st' = avail st0 /\ length (avail st') = length (avail st0).
+Proof. exact startup_fail_keeps_free. Qed.
+
+(* an accepted start-up returns, writes no group twice however many endpoints list it, writes no group the scan found
+   programmed, and takes one free index per write *)
+Theorem c15_startup_writes_once : forall st ss rs calls s,
+  distinct_groups (ncp st) -> readable ss rs -> status_ok s = true ->
+  let st0 := st_of (step st (Init ss rs)) in
+  let '(st', r, ws) := xstep st (Startup ss rs calls (Ans s)) in
+  r = RStatus 0 /\ NoDup (map wgroup ws) /\
+  (forall w, In w ws -> lookup (wgroup w) (subs st0) = None) /\
+  (length (avail st') + length ws = length (avail st0))%nat.
+Proof. exact startup_writes_once. Qed.
+
+(* non-vacuity: a group listed by two endpoints is written once; a timed-out start-up stops at its first write and keeps
+   the free indices; a later start-up re-reads the table *)
+Example c15_startup_example :
+  let t := [(0x22, 242); (0, 0); (0, 0); (0x55, 0)] in
+  xstep {| subs := [(0x99, 7)]; avail := [5]; ncp := t |} (Startup 0 [] [(0x11, 2); (0x22, 0); (0x11, 0); (0x66, 3)] (Ans 0))
+    = ({| subs := [(0x22, 0); (0x11, 2); (0x66, 3)]; avail := [1];
+          ncp := [(0x22, 242); (0, 0); (0x11, 1); (0x66, 1)] |}, RStatus 0, [(2, 0x11, 1); (3, 0x66, 1)]) /\
+  xstep {| subs := []; avail := []; ncp := t |} (Startup 0 [] [(0x22, 0); (0x11, 3); (0x66, 1)] TimeoutApplied)
+    = ({| subs := [(0x22, 0)]; avail := [1; 2; 3]; ncp := [(0x22, 242); (0, 0); (0, 0); (0x11, 1)] |}, RRaised, [(3, 0x11, 1)]) /\
+  avail (xrun {| subs := []; avail := []; ncp := t |}
+           [Startup 0 [] [(0x11, 1)] (Ans 0); Plain (Unsubscribe 0x22 (Ans 0)); Startup 0 [] [(0x11, 0); (0x33, 0)] (Ans 1)])
+    = [0; 2; 3].
+Proof. vm_compute. repeat split. Qed.
+
+(* ---- the source of Multicast.startup against the operation ------------------------------------------------------------
+   proofs/MulticastStartupSrc_proofs.v:  oracle_calls o k gs := the groups gs, the j-th with the choice of o (k + j);
+   same_answer o a := every table write is answered by a.  With the oracles as in c15_source_startup, the emitted coroutine
+   is ONE [Startup] operation: same dict, same set of free indices, same table writes in order, same outcome. *)
+Require Import BV.proofs.MulticastStartupSrc_proofs.
+Theorem c15_source_startup_op : forall st ss rs coordinator cfg rd o a,
+  cfg 6 = Some (ss, N.of_nat (length (ncp st))) ->
+  (forall j, (j < length (ncp st))%nat -> rd (N.of_nat j) = Some (nth j rs 0, nth j (ncp st) (0, 0))) ->
+  same_answer o a ->
+  choices_ok o (after_init st ss rs) (startup_groups coordinator) ->
+  let '(s', av', k, ws, r) := py_startup (subs st) (avail st) coordinator cfg rd o in
+  let '(st', r', ws') := xstep st (Startup ss rs (oracle_calls o 0 (startup_groups coordinator)) a) in
+  subs st' = s' /\ seteq (avail st') av' /\ ws' = ws /\ r' = r.
+Proof. exact src_startup_op. Qed.
